@@ -55,6 +55,32 @@ MUTANTS = [
      "old": "        lock_held = [True]\n",
      "new": "        instance.unlock()\n        lock_held = [False]\n",
      "note": "stream gives the lock up right away: other requests may interleave"},
+    # ---- C06
+    {"id": "c06-clone-is-base-model", "property": "C06", "file": SMSD,
+     "old": "        if not model:\n            return None\n", "new": "        if not model:\n            return None\n        return model\n"},
+    {"id": "c06-clones-share-memo", "property": "C06", "file": SMSD,
+     "old": "        new_mod.points = copy.deepcopy(model.points)", "new": "        new_mod.points = copy.deepcopy(model.points)\n        new_mod.memo = model.memo"},
+    {"id": "c06-clones-share-points", "property": "C06", "file": SMSD,
+     "old": "        new_mod.points = copy.deepcopy(model.points)", "new": "        new_mod.points = model.points"},
+    {"id": "c06-clones-share-equations", "property": "C06", "file": SMSD,
+     "old": "        new_mod.points = copy.deepcopy(model.points)", "new": "        new_mod.points = copy.deepcopy(model.points)\n        new_mod.equations = model.equations"},
+    {"id": "c06-settings-written-to-base-constants", "property": "C06", "file": SCN,
+     "old": "            for key, value in dictionary[\"constants\"].items():\n                self.constants[key] = value\n",
+     "new": "            for key, value in dictionary[\"constants\"].items():\n                self.constants[key] = value\n                SimulationScenario._last = getattr(SimulationScenario, '_last', {})\n                SimulationScenario._last[key] = value\n",
+     "edits": [("        if \"constants\" in dictionary:\n            # Overwrite base constants (if any)\n            self.constants = dictionary[\"constants\"]\n",
+                "        if \"constants\" in dictionary:\n            # Overwrite base constants (if any)\n            self.constants = dictionary[\"constants\"]\n            self.constants.update(getattr(SimulationScenario, '_last', {}))\n")],
+     "note": "session settings of one scenario leak into scenarios registered later (class-level residue)"},
+    {"id": "c06-reset-cache-hits-all-scenarios-sim", "property": "C06", "file": B,
+     "old": "        scenario = self.scenario_manager_factory.get_scenario(scenario_manager=scenario_manager, scenario=scenario)\n        scenario.reset_cache()",
+     "new": "        scenario = self.scenario_manager_factory.get_scenario(scenario_manager=scenario_manager, scenario=scenario)\n        scenario.reset_cache()\n        for sc in self.scenario_manager_factory.scenario_managers[scenario_manager].scenarios.values():\n            sc.sd_simulation = None",
+     "note": "resetting one scenario kills the live session simulation of its siblings"},
+    {"id": "c06-rest-run-settings-to-all-scenarios", "property": "C06", "file": S,
+     "old": "                            scenario.constants[constant_name]=constant_settings\n",
+     "new": "                            for other in self._bptk.scenario_manager_factory.scenario_managers[scenario_manager_name].scenarios.values():\n                                other.constants[constant_name]=constant_settings\n"},
+    {"id": "c06-scenario-constants-alias-base-constants", "property": "C06", "file": SMSD,
+     "old": "                    scenario[\"constants\"] = {}\n\n                for const, value in self.base_constants.items():\n                    if not const in scenario[\"constants\"].keys():\n                        scenario[\"constants\"][const] = value",
+     "new": "                    scenario[\"constants\"] = self.base_constants\n\n                for const, value in self.base_constants.items():\n                    if not const in scenario[\"constants\"].keys():\n                        scenario[\"constants\"][const] = value",
+     "note": "a scenario without own constants aliases the manager's base_constants dict: later settings for it change the defaults of scenarios added afterwards"},
     # ---- C08
     {"id": "c08-memoize-plain-store", "property": "C08", "file": M,
      "old": "            result = mymemo.setdefault(normalized_arg, result)", "new": "            mymemo[normalized_arg] = result"},
